@@ -669,6 +669,9 @@ def main():
     ev['wall_s'] = round(time.time() - t0, 2)
     # evidence of a run against another checkout must not replace the evidence of /repo
     evdir = os.path.join(ALT, 'evidence') if ALT else os.path.join(ROOT, 'evidence')
+    if args.no_coq:
+        # a development run without the proof obligations is not evidence for the property
+        evdir = os.path.join(evdir, 'dev')
     os.makedirs(evdir, exist_ok=True)
     with open(os.path.join(evdir, '%s.json' % pid), 'w') as f:
         json.dump(ev, f, indent=1, sort_keys=True)
